@@ -4,8 +4,9 @@ import XdslProofs.Lemmas.DisjointSet
 # C28 — e-class merging on the union-find (`EqsatPDLInterpFunctions.eclass_union`)
 
 `eclassUnion e a b` looks both class handles up in the `DisjointSet` (they may be *stale*: classes
-that were replaced by an earlier merge), unites the two representatives by size, keeps the class
-that the union-find made the new representative and merges the other one into it.  Using the C12
+that were replaced by an earlier merge); a constant class (`equivalence.const_class`) is always kept
+and made the representative (`union_left`), two plain classes are united by size and the class that
+the union-find made the new representative is kept; the other class is merged into the kept one.  Using the C12
 theorems about `IntDisjointSet` (`find_spec`, `union_spec`): if the two handles have equal values —
 what a sound rule establishes — the graph stays consistent whichever class is kept, and the
 union-find keeps mapping every handle ever handed out to a class with the same value.
@@ -72,40 +73,63 @@ theorem eclassUnion_preserves_consistency (I : Interp V) {env : List V} {ρ : Na
   · simp only [heq, if_false]
     have hra : root e.uf ia < u2.size := hs2 ▸ root_lt e.uf hi.inv hia'
     have hrb' : root e.uf ib < u2.size := hs2 ▸ root_lt e.uf hi.inv hib'
-    obtain ⟨u3, e3, i3, s3, r3, _⟩ := union_spec u2 i2 hra hrb'
     have hrra : root u2 (root e.uf ia) = root e.uf ia := by rw [hr2, root_idem e.uf hi.inv]
     have hrrb : root u2 (root e.uf ib) = root e.uf ib := by rw [hr2, root_idem e.uf hi.inv]
-    rw [hrra, hrrb] at e3 r3
-    obtain ⟨u4, e4, i4, s4, _, r4, _⟩ := find_spec u3 i3 (s3 ▸ hra)
-    simp only [e3, e4]
-    have hs4 : u4.size = e.vals.length := (s4.trans (s3.trans hs2)).trans hi.size
     have hval : ρ (e.vals.getD (root e.uf ia) 0) = ρ (e.vals.getD (root e.uf ib) 0) := by
       rw [hρa, hρb, hab]
-    rcases r3 with r3 | r3
-    · -- `a`'s representative stays
-      have hk : root u3 (root e.uf ia) = root e.uf ia := by rw [r3, hrra, if_neg heq]
-      simp only [hk, if_true]
+    -- the two orientations in which a representative absorbs the other class
+    have keepA : ∀ u3, DisjointSet.Inv u3 → u3.size = u2.size →
+        (∀ i, root u3 i = if root u2 i = root e.uf ib then root e.uf ia else root u2 i) →
+        let e' : EG := { e with uf := u3, prog := mergeInto e.prog (e.vals.getD (root e.uf ia) 0) (e.vals.getD (root e.uf ib) 0) }
+        Consistent I e'.prog env ρ ∧ e'.prog.ret.map ρ = e.prog.ret.map ρ ∧ EGInv e' ∧ UFSound e' ρ ∧ e'.vals = e.vals := by
+      intro u3 i3 s3 r3
       obtain ⟨c', rr⟩ := mergeInto_keeps I (keep := e.vals.getD (root e.uf ia) 0)
         (repl := e.vals.getD (root e.uf ib) 0) hc hval
-      refine ⟨_, true, rfl, c', rr, ⟨i4, hs4⟩, ?_, rfl⟩
+      refine ⟨c', rr, ⟨i3, (s3.trans hs2).trans hi.size⟩, ?_, rfl⟩
       intro i hi'
-      show ρ (e.vals.getD i 0) = ρ (e.vals.getD (root u4 i) 0)
-      rw [r4, r3, hr2]
+      show ρ (e.vals.getD i 0) = ρ (e.vals.getD (root u3 i) 0)
+      rw [r3, hr2]
       split
       · rename_i h'; rw [hs i hi', h', hval]
       · exact hs i hi'
-    · -- `b`'s representative becomes the parent
-      have hk : root u3 (root e.uf ia) = root e.uf ib := by rw [r3, hrra, if_pos rfl]
-      have hne : ¬ (root e.uf ib = root e.uf ia) := fun h' => heq h'.symm
-      simp only [hk, hne, if_false]
+    have keepB : ∀ u3, DisjointSet.Inv u3 → u3.size = u2.size →
+        (∀ i, root u3 i = if root u2 i = root e.uf ia then root e.uf ib else root u2 i) →
+        let e' : EG := { e with uf := u3, prog := mergeInto e.prog (e.vals.getD (root e.uf ib) 0) (e.vals.getD (root e.uf ia) 0) }
+        Consistent I e'.prog env ρ ∧ e'.prog.ret.map ρ = e.prog.ret.map ρ ∧ EGInv e' ∧ UFSound e' ρ ∧ e'.vals = e.vals := by
+      intro u3 i3 s3 r3
       obtain ⟨c', rr⟩ := mergeInto_keeps I (keep := e.vals.getD (root e.uf ib) 0)
         (repl := e.vals.getD (root e.uf ia) 0) hc hval.symm
-      refine ⟨_, true, rfl, c', rr, ⟨i4, hs4⟩, ?_, rfl⟩
+      refine ⟨c', rr, ⟨i3, (s3.trans hs2).trans hi.size⟩, ?_, rfl⟩
       intro i hi'
-      show ρ (e.vals.getD i 0) = ρ (e.vals.getD (root u4 i) 0)
-      rw [r4, r3, hr2]
+      show ρ (e.vals.getD i 0) = ρ (e.vals.getD (root u3 i) 0)
+      rw [r3, hr2]
       split
       · rename_i h'; rw [hs i hi', h', hval]
       · exact hs i hi'
+    split
+    · -- `a`'s representative is a constant class: `union_left(a, b)`
+      obtain ⟨u3, e3, i3, s3, r3, _⟩ := unionLeft_spec u2 i2 hra hrb'
+      rw [hrra, hrrb] at e3 r3
+      simp only [e3]
+      exact ⟨_, true, rfl, keepA u3 i3 s3 r3⟩
+    · split
+      · -- `b`'s representative is a constant class: `union_left(b, a)`
+        obtain ⟨u3, e3, i3, s3, r3, _⟩ := unionLeft_spec u2 i2 hrb' hra
+        rw [hrra, hrrb] at e3 r3
+        simp only [e3]
+        exact ⟨_, true, rfl, keepB u3 i3 s3 r3⟩
+      · -- two plain classes: union by size, the new representative is kept
+        obtain ⟨u3, e3, i3, s3, r3, _⟩ := union_spec u2 i2 hra hrb'
+        rw [hrra, hrrb] at e3 r3
+        obtain ⟨u4, e4, i4, s4, _, r4, _⟩ := find_spec u3 i3 (s3 ▸ hra)
+        simp only [e3, e4]
+        rcases r3 with r3 | r3
+        · have hk : root u3 (root e.uf ia) = root e.uf ia := by rw [r3, hrra, if_neg heq]
+          simp only [hk, if_true]
+          exact ⟨_, true, rfl, keepA u4 i4 (s4.trans s3) (fun i => (r4 i).trans (r3 i))⟩
+        · have hk : root u3 (root e.uf ia) = root e.uf ib := by rw [r3, hrra, if_pos rfl]
+          have hne : ¬ (root e.uf ib = root e.uf ia) := fun h' => heq h'.symm
+          simp only [hk, hne, if_false]
+          exact ⟨_, true, rfl, keepB u4 i4 (s4.trans s3) (fun i => (r4 i).trans (r3 i))⟩
 
 end Xdsl.EGraph
